@@ -1270,6 +1270,8 @@ class Interp:
         if not isinstance(b, (SInt, SBool)):
             raise ProgExc(TypeError("slice indices must be integers or None"))
         ctx = S.cur()
+        if n == 0:
+            return 0
         for k in range(n + 1):
             # Python: b<0 -> max(b+n,0), else min(b,n)
             if k == 0:
@@ -1342,6 +1344,8 @@ def py_isinstance(v, c):
         return c in (str, object)
     if isinstance(v, SRange):
         return isinstance(c, type) and (issubclass(range, c) or c is SRange)
+    if hasattr(type(v), "_pyvc_isinstance"):
+        return v._pyvc_isinstance(c)
     if isinstance(v, Opaque):
         sort = v._pyvc_sort
         if isinstance(c, type) and issubclass(sort, c):
@@ -1449,6 +1453,8 @@ def _sp_len(it, args, kw):
         return it.call(f, [v])
     if isinstance(v, SRange):
         return v.length()
+    if hasattr(type(v), "_pyvc_len"):
+        return v._pyvc_len()            # contract-side model of a sequence of symbolic length
     return it.native(len, v)
 
 def _sp_sum(it, args, kw):
